@@ -198,18 +198,57 @@ class Rec(Val):
         self.groups, self.chan_axis = tuple(groups), chan_axis
 
 
+STD_LAY = (0, 1, 2)
+
+
 class Mat(ObjVal):
-    def __init__(self, rows, cols, form):
-        self.rows, self.cols, self.form = tuple(rows), tuple(cols), form
+    """rows x cols block (x frequency lines).  lay = (axis of the rows, axis of the columns, axis of the frequency lines or None for
+    one line): which array axis carries what.  The estimator returns (0, 1, 2); the row axis always precedes the column axis
+    (a transposed array is expressed by swapping the labels and transposing the factor form)."""
+
+    def __init__(self, rows, cols, form, lay=STD_LAY):
+        self.rows, self.cols, self.form, self.lay = tuple(rows), tuple(cols), form, tuple(lay)
+
+    @property
+    def ndim(self):
+        return sum(1 for a in self.lay if a is not None)
 
     def subs(self, name, val):
-        return Mat(gsubs(self.rows, name, val), gsubs(self.cols, name, val), fsubs(self.form, name, val))
+        return Mat(gsubs(self.rows, name, val), gsubs(self.cols, name, val), fsubs(self.form, name, val), self.lay)
+
+    def with_lay(self, lay):
+        """same data, axes re-arranged; normalised so that the row axis precedes the column axis"""
+        r, c, f = lay
+        if r > c:
+            return Mat(self.cols, self.rows, ftrans(self.form), (c, r, f))
+        return Mat(self.rows, self.cols, self.form, lay)
+
+    def logical(self, axis):
+        """'r' / 'c' / 'f' for a (possibly negative) numpy axis number, None if out of range"""
+        n = self.ndim
+        if axis < 0:
+            axis += n
+        for name, a in zip("rcf", self.lay):
+            if a == axis:
+                return name
+        return None
+
+    def matrix_last(self):
+        """the channel axes are the last two, rows before columns (what matmul / inv / solve operate on)"""
+        n = self.ndim
+        return self.lay[0] == n - 2 and self.lay[1] == n - 1
 
     def show(self):
-        return f"Mat{gshow(self.rows)}x{gshow(self.cols)}"
+        return f"Mat{gshow(self.rows)}x{gshow(self.cols)}" + ("" if self.lay in (STD_LAY, (0, 1, None)) else f"@axes{self.lay}")
 
     def __repr__(self):
         return self.show() + " = " + fshow(self.form)
+
+
+def _permute(m, order):
+    """new axis i carries old axis order[i]"""
+    lay = tuple(None if a is None else order.index(a) for a in m.lay)
+    return m.with_lay(lay)
 
 
 class Freq(ObjVal):
@@ -270,27 +309,41 @@ class Interp(seqdom.Interp):
         return None
 
     def mat_index(self, m, idx, node):
-        sl = []
-        for x in idx[:2]:
-            if isinstance(x, tuple) and x[0] == "slice" and x[3] is None:
+        if any(isinstance(x, tuple) and x[0] == "ellipsis" for x in idx):
+            return m
+        n = m.ndim
+        if len(idx) > n:
+            return Mat(m.rows, m.cols, ("opq", f"too many indices in `{astq.src(node, 50)}`"), m.lay)
+        sl = {"r": (None, None), "c": (None, None)}
+        drop = None
+        for pos_, x in enumerate(idx):
+            what = m.logical(pos_)
+            is_slice = isinstance(x, tuple) and x[0] == "slice"
+            if what == "f":
+                if is_slice:
+                    continue        # a range of frequency lines: the channel structure is unchanged
+                if isinstance(x, Val) and not isinstance(x, (Sq, Tup, Mat)):
+                    drop = pos_     # one frequency line
+                    continue
+                return Mat(m.rows, m.cols, ("opq", f"index on the frequency axis in `{astq.src(node, 50)}`"), m.lay)
+            if is_slice and x[3] is None:
                 lo = self.topoly(x[1]) if x[1] is not None else None
                 hi = self.topoly(x[2]) if x[2] is not None else None
                 if (x[1] is not None and lo is None) or (x[2] is not None and hi is None):
-                    return Mat(m.rows, m.cols, ("opq", f"slice bound of `{astq.src(node, 50)}` not evaluable"))
-                sl.append((lo, hi))
-            elif isinstance(x, tuple) and x[0] == "ellipsis":
-                return m
+                    return Mat(m.rows, m.cols, ("opq", f"slice bound of `{astq.src(node, 50)}` not evaluable"), m.lay)
+                sl[what] = (lo, hi)
             else:
-                return Mat(m.rows, m.cols, ("opq", f"non-slice index on a channel axis in `{astq.src(node, 50)}`"))
-        while len(sl) < 2:
-            sl.append((None, None))
-        rows = gslice(m.rows, *sl[0])
-        cols = gslice(m.cols, *sl[1])
+                return Mat(m.rows, m.cols, ("opq", f"non-slice index on a channel axis in `{astq.src(node, 50)}`"), m.lay)
+        rows = gslice(m.rows, *sl["r"])
+        cols = gslice(m.cols, *sl["c"])
         if rows is None or cols is None:
-            self.err(node, f"`{astq.src(node, 60)}` cuts {m.show()} inside a channel group (bounds {sl[0]}, {sl[1]})")
-            return Mat(m.rows, m.cols, ("opq", "slice across a group boundary"))
+            self.err(node, f"`{astq.src(node, 60)}` cuts {m.show()} inside a channel group (bounds {sl['r']}, {sl['c']})")
+            return Mat(m.rows, m.cols, ("opq", "slice across a group boundary"), m.lay)
+        lay = m.lay
+        if drop is not None:
+            lay = tuple(None if a == drop else (a - 1 if a is not None and a > drop else a) for a in lay)
         if rows == m.rows and cols == m.cols:
-            return m
+            return Mat(m.rows, m.cols, m.form, lay)
         form = m.form
         if form[0] == "S":
             form = ("S", form[1], tuple(x[1] for x in rows), tuple(x[1] for x in cols))
@@ -298,49 +351,63 @@ class Interp(seqdom.Interp):
             form = ("scaled", ("S", form[1][1], tuple(x[1] for x in rows), tuple(x[1] for x in cols)))
         else:
             form = ("opq", f"block of a computed matrix `{astq.src(node, 40)}`")
-        return Mat(rows, cols, form)
+        return Mat(rows, cols, form, lay)
 
     def attr_hook(self, base, name, node):
         if isinstance(base, Rec) and name == "shape":
             n = glen(base.groups)
             return Tup([I(n) if n is not None else E(node), E(ast.Name(id="n_samples", ctx=ast.Load()))]) if base.chan_axis == 0 else None
         if isinstance(base, Mat):
-            if name == "T":
-                return Mat(base.cols, base.rows, ftrans(base.form))
+            if name in ("T", "mT"):
+                n = base.ndim
+                if name == "mT" or n == 2:
+                    order = list(range(n))
+                    order[-1], order[-2] = order[-2], order[-1]
+                else:
+                    order = list(range(n))[::-1]
+                return _permute(base, order)
             if name == "shape":
                 a, b = glen(base.rows), glen(base.cols)
-                return Tup([I(a) if a is not None else E(node), I(b) if b is not None else E(node), I(P.s("nf"))])
+                dims = {"r": I(a) if a is not None else E(node), "c": I(b) if b is not None else E(node), "f": I(P.s("nf"))}
+                return Tup([dims[base.logical(i)] for i in range(base.ndim)])
+            if name == "ndim":
+                return I(P.c(base.ndim))
             if name in ("real", "imag"):
-                return Mat(base.rows, base.cols, ("opq", f".{name} of a spectral block"))
+                return Mat(base.rows, base.cols, ("opq", f".{name} of a spectral block"), base.lay)
         return None
 
     def same(self, a, b):
         return gcanon(a) == gcanon(b)
 
-    def matmul(self, a, b, node):
+    def matmul(self, a, b, node, dot=False):
+        lay = a.lay if a.ndim >= b.ndim else b.lay
+        if not (a.matrix_last() and b.matrix_last()) or (dot and (a.ndim > 2 or b.ndim > 2)):
+            # the product would run over the frequency axis (or np.dot of stacks): not the product of the blocks
+            return Mat(a.rows, b.cols, ("opq", f"product `{astq.src(node, 50)}` is not taken over the channel axes (operand axes {a.lay} / {b.lay})"), lay)
         if not self.same(a.cols, b.rows):
             self.err(node, f"product `{astq.src(node, 60)}`: columns {gshow(a.cols)} of the left factor are not the rows {gshow(b.rows)} of the right factor")
-        return Mat(a.rows, b.cols, fprod(a.form, b.form))
+        return Mat(a.rows, b.cols, fprod(a.form, b.form), lay)
 
     def binop_hook(self, op, a, b, node):
         if isinstance(a, Mat) and isinstance(b, Mat):
             if isinstance(op, ast.MatMult):
                 return self.matmul(a, b, node)
             if isinstance(op, (ast.Add, ast.Sub)):
-                if not (self.same(a.rows, b.rows) and self.same(a.cols, b.cols)):
+                if a.lay == b.lay and not (self.same(a.rows, b.rows) and self.same(a.cols, b.cols)):
                     self.err(node, f"`{astq.src(node, 60)}` adds blocks of different channel groups")
-                return Mat(a.rows, a.cols, ("opq", "sum of blocks"))
-            return Mat(a.rows, a.cols, ("opq", "element-wise combination of blocks"))
+                return Mat(a.rows, a.cols, ("opq", "sum of blocks"), a.lay)
+            return Mat(a.rows, a.cols, ("opq", "element-wise combination of blocks"), a.lay)
         for x, y in ((a, b), (b, a)):
             if isinstance(x, Mat) and not isinstance(y, (Mat, Sq)):
                 if isinstance(op, (ast.Mult, ast.Div)):
-                    return Mat(x.rows, x.cols, x.form if x.form[0] == "scaled" else ("scaled", x.form))
-                return Mat(x.rows, x.cols, ("opq", "block combined with a scalar"))
+                    return Mat(x.rows, x.cols, x.form if x.form[0] == "scaled" else ("scaled", x.form), x.lay)
+                return Mat(x.rows, x.cols, ("opq", "block combined with a scalar"), x.lay)
         return None
 
     def stack(self, mats, axis, node):
-        """axis 0: rows joined, 1: columns joined"""
+        """axis 0: rows joined, 1: columns joined (logical axes; all blocks share one axis layout)"""
         first = mats[0]
+        lay = first.lay
         rows, cols = list(first.rows), list(first.cols)
         for m in mats[1:]:
             if axis == 0:
@@ -354,10 +421,28 @@ class Interp(seqdom.Interp):
         forms = [m.form for m in mats]
         if all(f[0] == "S" for f in forms) and len({repr(f[1]) for f in forms}) == 1:
             if axis == 1 and len({f[2] for f in forms}) == 1:
-                return Mat(rows, cols, ("S", forms[0][1], forms[0][2], tuple(k for f in forms for k in f[3])))
+                return Mat(rows, cols, ("S", forms[0][1], forms[0][2], tuple(k for f in forms for k in f[3])), lay)
             if axis == 0 and len({f[3] for f in forms}) == 1:
-                return Mat(rows, cols, ("S", forms[0][1], tuple(k for f in forms for k in f[2]), forms[0][3]))
-        return Mat(rows, cols, ("vstack", tuple(forms)) if axis == 0 else ("opq", "hstack of computed blocks"))
+                return Mat(rows, cols, ("S", forms[0][1], tuple(k for f in forms for k in f[2]), forms[0][3]), lay)
+        return Mat(rows, cols, ("vstack", tuple(forms)) if axis == 0 else ("opq", "hstack of computed blocks"), lay)
+
+    def _mats_of(self, t):
+        """the typed blocks inside a normalised sequence term"""
+        out = []
+        for x in seqdom.walk(t):
+            if x[0] == "obj" and isinstance(x[1], Mat):
+                out.append(x[1])
+        return out
+
+    def _int(self, v):
+        p = self.topoly(v) if isinstance(v, Val) else None
+        return int(p.const()) if p is not None and p.is_const() else None
+
+    def _int_tuple(self, v):
+        if isinstance(v, Tup):
+            out = [self._int(x) for x in v.items]
+            return None if any(x is None for x in out) else out
+        return None
 
     def call_hook(self, fn, args, kw, node, env):
         r = self.prog.resolve_call(self.fi, node) if hasattr(self.prog, "resolve_call") else None
@@ -383,6 +468,15 @@ class Interp(seqdom.Interp):
                 p = self.topoly(ax) if ax is not None else P.c(0)
                 axis = int(p.const()) if p is not None and p.is_const() else None
             items = None
+            mats_in = [x for x in a0.items if isinstance(x, Mat)] if isinstance(a0, Tup) else (self._mats_of(normalise(a0.t)) if isinstance(a0, Sq) else [])
+            if mats_in and axis is not None:
+                # the numpy axis names a logical axis through the (common) axis layout of the blocks
+                if len({m.lay for m in mats_in}) != 1:
+                    return Mat((), (), ("opq", f"`{astq.src(node, 50)}` joins blocks with different axis layouts"))
+                what = mats_in[0].logical(axis)
+                if what not in ("r", "c"):
+                    return Mat(mats_in[0].rows, mats_in[0].cols, ("opq", f"`{astq.src(node, 50)}` joins blocks along the frequency axis"), mats_in[0].lay)
+                axis = 0 if what == "r" else 1
             if isinstance(a0, Tup):
                 items = a0.items
             elif isinstance(a0, Sq):
@@ -396,7 +490,7 @@ class Interp(seqdom.Interp):
                     v = t[1]
                     if gcanon(gsubs(m.cols, v, P.s("zz1"))) != gcanon(gsubs(m.cols, v, P.s("zz2"))):
                         self.err(node, f"`{astq.src(node, 60)}` stacks per-setup blocks whose columns differ from setup to setup")
-                    return Mat((("forg", v, t[2], t[3], m.rows),), m.cols, ("for", v, t[2], t[3], m.form))
+                    return Mat((("forg", v, t[2], t[3], m.rows),), m.cols, ("for", v, t[2], t[3], m.form), m.lay)
                 elif t[0] == "cat" and all(x[0] == "obj" or (x[0] == "for" and x[4][0] == "obj") for x in t[1]) and axis == 0:
                     rows, forms, cols = [], [], None
                     for x in t[1]:
@@ -412,7 +506,7 @@ class Interp(seqdom.Interp):
                             cols = m.cols
                         elif not self.same(cols, m.cols):
                             self.err(node, f"`{astq.src(node, 60)}` stacks blocks with different columns")
-                    return Mat(rows, cols, ("vstack", tuple(forms)))
+                    return Mat(rows, cols, ("vstack", tuple(forms)), m.lay)
             if items and all(isinstance(x, Rec) for x in items) and axis == 0:
                 return Rec([gg for x in items for gg in x.groups])
             if items and all(isinstance(x, Mat) for x in items) and axis in (0, 1):
@@ -420,11 +514,11 @@ class Interp(seqdom.Interp):
             if items and any(isinstance(x, (Mat, Rec)) for x in items):
                 return Mat((), (), ("opq", f"{fn} of mixed values"))
         if fn in ("numpy.dot", "numpy.matmul") and len(args) == 2 and all(isinstance(x, Mat) for x in args):
-            return self.matmul(args[0], args[1], node)
+            return self.matmul(args[0], args[1], node, dot=fn == "numpy.dot")
         if isinstance(node.func, ast.Attribute) and node.func.attr == "dot" and len(args) == 1:
             base = self.ev(node.func.value, env)
             if isinstance(base, Mat) and isinstance(args[0], Mat):
-                return self.matmul(base, args[0], node)
+                return self.matmul(base, args[0], node, dot=True)
         if fn in ("numpy.linalg.multi_dot",) and args and isinstance(args[0], (Tup, Sq)):
             items = args[0].items if isinstance(args[0], Tup) else [self.elem_val(x) for x in normalise(args[0].t)[1]]
             if all(isinstance(x, Mat) for x in items):
@@ -434,14 +528,43 @@ class Interp(seqdom.Interp):
                 return r_
         if fn in ("numpy.linalg.inv", "numpy.linalg.pinv", "scipy.linalg.inv", "scipy.linalg.pinv") and args and isinstance(args[0], Mat):
             m = args[0]
+            if not m.matrix_last() or (fn.startswith("scipy") and m.ndim > 2):
+                return Mat(m.cols, m.rows, ("opq", f"`{astq.src(node, 50)}` does not invert over the channel axes (axes {m.lay})"), m.lay)
             if not self.same(m.rows, m.cols):
                 self.err(node, f"`{astq.src(node, 60)}` inverts a block that is not square in the channel groups: {m.show()}")
-            return Mat(m.cols, m.rows, finv(m.form))
+            return Mat(m.cols, m.rows, finv(m.form), m.lay)
         if fn in ("numpy.linalg.solve", "scipy.linalg.solve") and len(args) == 2 and all(isinstance(x, Mat) for x in args):
             a, b = args
-            return self.matmul(Mat(a.cols, a.rows, finv(a.form)), b, node)
-        if fn in ("numpy.transpose",) and args and isinstance(args[0], Mat) and len(args) == 1:
-            return Mat(args[0].cols, args[0].rows, ftrans(args[0].form))
+            if not a.matrix_last() or (fn.startswith("scipy") and a.ndim > 2):
+                return Mat(a.cols, b.cols, ("opq", f"`{astq.src(node, 50)}` does not solve over the channel axes"), a.lay)
+            return self.matmul(Mat(a.cols, a.rows, finv(a.form), a.lay), b, node)
+        if fn in ("numpy.transpose",) and args and isinstance(args[0], Mat):
+            m = args[0]
+            axes = args[1] if len(args) > 1 else kw.get("axes")
+            if axes is None:
+                return _permute(m, list(range(m.ndim))[::-1])
+            order = self._int_tuple(axes)
+            if order is None or sorted(a_ % m.ndim for a_ in order) != list(range(m.ndim)):
+                return Mat(m.rows, m.cols, ("opq", f"axes of `{astq.src(node, 50)}` not evaluable"), m.lay)
+            return _permute(m, [a_ % m.ndim for a_ in order])
+        if fn == "numpy.swapaxes" and len(args) == 3 and isinstance(args[0], Mat):
+            m = args[0]
+            a_, b_ = self._int(args[1]), self._int(args[2])
+            if a_ is None or b_ is None:
+                return Mat(m.rows, m.cols, ("opq", f"axes of `{astq.src(node, 50)}` not evaluable"), m.lay)
+            order = list(range(m.ndim))
+            order[a_ % m.ndim], order[b_ % m.ndim] = order[b_ % m.ndim], order[a_ % m.ndim]
+            return _permute(m, order)
+        if fn == "numpy.moveaxis" and args and isinstance(args[0], Mat):
+            m = args[0]
+            src_ = self._int(args[1] if len(args) > 1 else kw.get("source"))
+            dst_ = self._int(args[2] if len(args) > 2 else kw.get("destination"))
+            if src_ is None or dst_ is None:
+                return Mat(m.rows, m.cols, ("opq", f"axes of `{astq.src(node, 50)}` not evaluable"), m.lay)
+            order = list(range(m.ndim))
+            order.remove(src_ % m.ndim)
+            order.insert(dst_ % m.ndim, src_ % m.ndim)
+            return _permute(m, order)
         if fn in ("numpy.sum", "numpy.mean", "sum", "numpy.nanmean") and args and isinstance(args[0], Sq):
             t = normalise(args[0].t)
             ax = kw.get("axis") or (args[1] if len(args) > 1 and fn != "sum" else None)
@@ -454,14 +577,17 @@ class Interp(seqdom.Interp):
                     self.err(node, f"`{astq.src(node, 60)}` sums blocks over the setups whose channel groups differ from setup to setup: {m.show()}")
                 full = t[2] == P.c(0) and t[3] == P.s("N")
                 form = ("mean", v, m.form) if full else ("opq", f"sum over setups {t[2]!r}..{t[3]!r} (not all of them)")
-                return Mat(star(m.rows), star(m.cols), form)
+                return Mat(star(m.rows), star(m.cols), form, m.lay)
         if fn in ("numpy.array", "numpy.asarray", "numpy.stack") and args and isinstance(args[0], Sq):
             t = normalise(args[0].t)
             if t[0] == "for" and t[4][0] == "obj" and isinstance(t[4][1], Mat):
                 m = t[4][1]
                 if repr(m.subs(t[1], P.s("zz1"))) == repr(m.subs(t[1], P.s("zz2"))):
-                    return m          # the same typed block for every line of the grid: a stack along the frequency axis
-        if fn in ("numpy.moveaxis", "numpy.conj", "numpy.conjugate", "numpy.copy", "numpy.ascontiguousarray", "numpy.asarray", "numpy.array", "numpy.real_if_close") and args and isinstance(args[0], Mat):
+                    # the same typed block for every line of the grid: a stack along a new leading (frequency) axis
+                    if m.lay[2] is None:
+                        return Mat(m.rows, m.cols, m.form, (m.lay[0] + 1, m.lay[1] + 1, 0))
+                    return Mat(m.rows, m.cols, ("opq", f"`{astq.src(node, 50)}` stacks blocks that already have a frequency axis"), m.lay)
+        if fn in ("numpy.conj", "numpy.conjugate", "numpy.copy", "numpy.ascontiguousarray", "numpy.asarray", "numpy.array", "numpy.real_if_close", "numpy.asfortranarray") and args and isinstance(args[0], Mat):
             return args[0]
         if isinstance(node.func, ast.Attribute) and node.func.attr in ("conj", "conjugate", "copy", "astype") :
             base = self.ev(node.func.value, env)
